@@ -219,7 +219,8 @@ fn build(input: &str, copies: usize, k: usize, r: &mut Rng, c: &Ctxt) -> Option<
             let mut joined = String::new();
             for (pi, p) in params.iter().enumerate() {
                 if pi > 0 {
-                    joined.push_str(r.pick_str(&[", ", ",", ",, ", ", , ", " ,,, "]));
+                    // (a TAB among the blanks around a comma is separator white space like a space)
+                    joined.push_str(r.pick_str(&[", ", ",", ",, ", ", , ", " ,,, ", ",\t", ", \t", ",\t ", "\t,\t", " \t , "]));
                 }
                 joined.push_str(p);
             }
